@@ -364,6 +364,103 @@ theorem copy_sample_eq (null : α) (e r : DExt κ α) (isTime : Bool)
         valuesAndClass_single _ _ _ hvs, bind_pure, hk, Nat.add_sub_cancel_left]
       exact hsa vslices hvs _
 
+/-! ### `get_subset` for one key of the parent -/
+
+/-- **a subset along the slice axis, as written in dcmmeta.py, is the model's `subsetSliceK`** for one key: non-slice classes are
+    copied, per-slice classes go through `_copy_slice` -/
+theorem get_subset_key_slice_eq (null : α) (e r : DExt κ α) (dim : Nat) (hed : e.sliceDim = some dim)
+    (h3 : 3 ≤ r.shape.length) (h5 : r.shape.length ≤ 5)
+    (hsl : r.sliceDim.isSome = true) (hbase : ∀ d, basePresent r.shp d = true → d ∈ validClasses r.shp)
+    (hrs : r.shp = sliceSubsetShp e.shp)
+    (c : Cls) (vals : List α) (idx : Nat)
+    (hne : perSlice c = true → (stride e.shp.S (vals.drop idx)).length ≠ 0 ∨ mult r.shp (copySliceDest (validClasses r.shp) c) = 0) :
+    Py.get_subset_key null e.shape (e.sliceDim.map fun d => e.shape.getD d 1) e.sliceDim r.shape
+        (r.sliceDim.map fun d => r.shape.getD d 1) (contentOf r) [] c vals dim idx =
+      errOf ((subsetSliceK null e.shp (some (c, vals)) idx).map toDict) := by
+  have heS : (e.sliceDim.map fun d => e.shape.getD d 1) = some e.shp.S := by
+    obtain ⟨shape, sdim, ht, hvv, ents⟩ := e
+    simp at hed; subst hed; simp [DExt.shp]
+  unfold Py.get_subset_key subsetSliceK
+  by_cases hc : c = gconst
+  · subst hc; simp [perSlice, set_nil, errOf, Except.map, toDict, pure, Except.pure]
+  · have hcb : (c == gconst) = false := by simpa using hc
+    have hd : (some dim == e.sliceDim) = true := by simp [hed]
+    simp only [hcb, Bool.false_eq_true, if_false, hd, if_true]
+    by_cases hp : perSlice c = true
+    · have hsub : (c.sub != "slices") = false := by cases c <;> simp [perSlice] at hp <;> rfl
+      simp only [hsub, Bool.false_eq_true, if_false, hp, if_true, heS, ← hrs]
+      rw [copy_slice_eq null r h3 h5 hsl hbase e.shp.S c hp vals idx (hne hp)]
+      cases applySimplify null r.shp (some (copySliceDest (validClasses r.shp) c,
+          copySliceVals e.shp.S (mult r.shp (copySliceDest (validClasses r.shp) c)) idx vals)) <;>
+        simp [errOf, Except.map, bind, Except.bind, pure, Except.pure]
+    · have hp' : perSlice c = false := by simpa using hp
+      have hsub : (c.sub != "slices") = true := by cases c <;> simp [perSlice] at hp' <;> rfl
+      simp [hsub, hp', set_nil, errOf, Except.map, toDict, pure, Except.pure]
+
+/-- **a subset along a spatial axis other than the slice axis copies every key** -/
+theorem get_subset_key_spatial_eq (null : α) (e r : DExt κ α) (dim : Nat) (hed : e.sliceDim ≠ some dim) (hd3 : dim < 3)
+    (c : Cls) (vals : List α) (idx : Nat) :
+    Py.get_subset_key null e.shape (e.sliceDim.map fun d => e.shape.getD d 1) e.sliceDim r.shape
+        (r.sliceDim.map fun d => r.shape.getD d 1) (contentOf r) [] c vals dim idx = .ok [(c, vals)] := by
+  have hd : (some dim == e.sliceDim) = false := by
+    cases hs : e.sliceDim with
+    | none => rfl
+    | some d => simp [hs] at hed ⊢; exact fun h => hed h.symm
+  unfold Py.get_subset_key
+  by_cases hc : (c == gconst) = true
+  · simp [hc, set_nil, pure, Except.pure]
+  · simp [hc, hd, hd3, set_nil, pure, Except.pure]
+
+/-- **a subset along the time (`dim = 3`) or vector (`dim = 4`) axis, as written in dcmmeta.py, is the model's `subsetTimeK` /
+    `subsetVecK`** for one key: constants are copied, everything else goes through `_copy_sample` -/
+theorem get_subset_key_sample_eq (null : α) (e r : DExt κ α) (isTime : Bool) (dim : Nat)
+    (hdim : dim = if isTime then 3 else 4) (hed : e.sliceDim ≠ some dim)
+    (he4 : 4 ≤ e.shape.length) (he5 : e.shape.length ≤ 5) (hev : isTime = false → e.shape.length = 5)
+    (hesl : e.sliceDim.isSome = true)
+    (h3 : 3 ≤ r.shape.length) (h5 : r.shape.length ≤ 5)
+    (hsl : r.sliceDim.isSome = true) (hbase : ∀ d, basePresent r.shp d = true → d ∈ validClasses r.shp)
+    (hrs : r.shp = if isTime then timeSubsetShp e.shp else vecSubsetShp e.shp)
+    (c : Cls) (vals : List α) (idx : Nat) (hidx : idx < vals.length)
+    (hdest : c ≠ gconst → (copySampleK e.shp r.shp isTime idx c vals).1 ∈ validClasses r.shp) :
+    Py.get_subset_key null e.shape (e.sliceDim.map fun d => e.shape.getD d 1) e.sliceDim r.shape
+        (r.sliceDim.map fun d => r.shape.getD d 1) (contentOf r) [] c vals dim idx =
+      errOf (((if isTime then subsetTimeK null e.shp (some (c, vals)) idx else subsetVecK null e.shp (some (c, vals)) idx)).map toDict) := by
+  have hd : (some dim == e.sliceDim) = false := by
+    cases hs : e.sliceDim with
+    | none => rfl
+    | some d => simp [hs] at hed ⊢; exact fun h => hed h.symm
+  unfold Py.get_subset_key
+  by_cases hc : c = gconst
+  · subst hc
+    cases isTime <;> simp [subsetTimeK, subsetVecK, set_nil, errOf, Except.map, toDict, pure, Except.pure]
+  · have hcb : (c == gconst) = false := by simpa using hc
+    have hcs := copy_sample_eq null e r isTime he4 he5 hev hesl h3 h5 hsl hbase c hc vals idx hidx (hdest hc)
+    cases isTime
+    · have hdim' : dim = 4 := by simpa using hdim
+      subst hdim'
+      have h1 : decide (4 < 3) = false := by decide
+      have h2 : ((4 : Nat) == 3) = false := by decide
+      simp only [hcb, Bool.false_eq_true, if_false, hd, h1, h2, subsetVecK, hc]
+      simp only [if_false, Bool.false_eq_true] at hcs hrs
+      rw [hcs, ← hrs]
+      simp only [sampleSubsetK]
+      cases (if (copySampleK e.shp r.shp false idx c vals).2.2 = true then
+          applySimplify null r.shp (some ((copySampleK e.shp r.shp false idx c vals).1, (copySampleK e.shp r.shp false idx c vals).2.1))
+        else Except.ok (some ((copySampleK e.shp r.shp false idx c vals).1, (copySampleK e.shp r.shp false idx c vals).2.1))) <;>
+        simp [errOf, Except.map, bind, Except.bind, pure, Except.pure]
+    · have hdim' : dim = 3 := by simpa using hdim
+      subst hdim'
+      have h1 : decide (3 < 3) = false := by decide
+      have h2 : ((3 : Nat) == 3) = true := by decide
+      simp only [hcb, Bool.false_eq_true, if_false, hd, h1, h2, if_true, subsetTimeK, hc]
+      simp only [if_true] at hcs hrs
+      rw [hcs, ← hrs]
+      simp only [sampleSubsetK]
+      cases (if (copySampleK e.shp r.shp true idx c vals).2.2 = true then
+          applySimplify null r.shp (some ((copySampleK e.shp r.shp true idx c vals).1, (copySampleK e.shp r.shp true idx c vals).2.1))
+        else Except.ok (some ((copySampleK e.shp r.shp true idx c vals).1, (copySampleK e.shp r.shp true idx c vals).2.1))) <;>
+        simp [errOf, Except.map, bind, Except.bind, pure, Except.pure]
+
 /-! the translated methods compute (tests, not theorems) -/
 example : Py.copy_slice (0 : Nat) [2, 2, 1, 2] (some 1) ["global", "time"] [] (some 2) gslices [1, 2, 3, 4] 1 =
     .ok [(tsamples, [2, 4])] := by rfl
